@@ -192,6 +192,13 @@ impl NormalFormQuery {
             plan = plan_type.codec.decode(plan, &mut planner);
             if plan.is_nullable() {
                 plan = fuse_nulls_widened(&mut planner, plan);
+            } else if matches!(
+                plan.tag,
+                EncodingType::U8 | EncodingType::U16 | EncodingType::U32 | EncodingType::U64
+            ) {
+                // A computed narrow key (e.g. the U8 result of a comparison) must have the same type as the widened
+                // fused key of a partition where an operand is nullable, or the partial results cannot be merged.
+                plan = planner.cast(plan, EncodingType::I64);
             }
             plan = planner.collect(plan, &format!("order_by_{}", i));
             order_by.push((plan.any(), *desc));
